@@ -281,5 +281,5 @@ SUBS = [
         rule="Hypothesis lists of 4..12 ops over the full alphabet (adds float, bfloat16, float64, float16, to(dtype=), to(instrument "
              "without dtype), derivative.double, to(tensor bf16), simulate with another n_paths, to(int/bool) -> TypeError), both initial "
              "global default dtypes. Non-trivial as above.",
-        strategy=lambda tier: random_history(), examples={"quick": 1600, "thorough": 16000}),
+        strategy=lambda tier: random_history(), examples={"quick": 1600, "thorough": 16000}, fuzz={"thorough": 120.0}),
 ]
